@@ -196,6 +196,77 @@ def make_instructions(specs, durs):
 
 
 # ------------------------------------------------------------------------------------------
+# constructor arguments of Scheduler
+
+# every kind of `method` argument: the two documented strings, other casings, near misses, other strings, non-strings
+# (the clean code compares `self.method == "ALAP"` at three places: everything but "ALAP" is silently ASAP)
+METHODS_ODD = ["alap", "Alap", "ALAp", "aLAP", "asap", "Asap", "", " ALAP", "ALAP ", "ALAP\n", "ALAPX", "LAP", "foo",
+               "\u0391LAP", None, 0, 1, 2.5, True]
+METHODS = ["ASAP", "ALAP"] + METHODS_ODD
+
+# constraint_functions: None = default; descriptors "q" qubit_constraint, "a" allow everything, ["f", i, j] forbid the
+# ordered pair (called as f(candidate, member, nodes)), "n" forbid equal names.  0-3 functions, qubit_constraint
+# first / last / in the middle / absent.
+CONS_LISTS = [None, [], ["q"], ["a"], ["n"], [["f", 1, 0]], ["q", "a"], ["a", "q"], ["q", "n"], ["n", "q"], ["a", "n"],
+              ["q", ["f", 1, 0]], [["f", 0, 1], "q"], ["a", ["f", 1, 0]], [["f", 2, 0], "a"], ["q", "a", "n"],
+              ["a", "n", "q"], ["a", "q", "n"], [["f", 1, 0], "a", "q"], ["a", "n", ["f", 2, 1]], ["a", "a", "a"]]
+
+
+def cons_has_qubit(cons):
+    return cons is None or "q" in cons
+
+
+def cons_verdict(c, specs, i, j):
+    """verdict of one constraint descriptor on the call f(i, j, nodes), evaluated on the specs (independent of the code)"""
+    if c == "q":
+        return not (used_of(specs[i]) & used_of(specs[j]))
+    if c == "a":
+        return True
+    if c == "n":
+        return specs[i][0] != specs[j][0]
+    return not (i == c[1] and j == c[2])
+
+
+def make_constraints(cons):
+    """the Python constraint functions of a descriptor list (None -> None: the constructor's default)"""
+    if cons is None:
+        return None
+    S = _mods()[0]
+    out = []
+    for c in cons:
+        if c == "q":
+            out.append(S.qubit_constraint)
+        elif c == "a":
+            out.append(lambda i, j, ins: True)
+        elif c == "n":
+            out.append(lambda i, j, ins: ins[i].name != ins[j].name)
+        else:
+            out.append((lambda a, b: (lambda i, j, ins: not (i == a and j == b)))(c[1], c[2]))
+    return out
+
+
+def new_scheduler(method, perm, cons=None):
+    _, _, Scheduler, _, _ = _mods()
+    if cons is None:
+        return Scheduler(method, allow_permutation=perm)
+    return Scheduler(method, allow_permutation=perm, constraint_functions=make_constraints(cons))
+
+
+def enc_method(m):
+    if not isinstance(m, str):
+        return "mcp=-"
+    return "mcp=" + (",".join(str(ord(ch)) for ch in m) if m else "e")
+
+
+def enc_cons(cons):
+    if cons is None:
+        return ""
+    if not cons:
+        return " cons=-"
+    return " cons=" + ",".join(c if isinstance(c, str) else f"f{c[1]}.{c[2]}" for c in cons)
+
+
+# ------------------------------------------------------------------------------------------
 # model side
 
 def ins_fields(ins):
@@ -239,9 +310,9 @@ def enc_ins(name, ts, cs, dur):
     return f"{name}:{','.join(map(str, ts))}:{','.join(map(str, cs))}:{dur}"
 
 
-def model_line(method, perm, fields, shuf=None):
-    """fields = [(name, targets, controls, dur_numerator)]"""
-    line = f"sched method={method} perm={1 if perm else 0} gates=" + "|".join(enc_ins(*f) for f in fields)
+def model_line(method, perm, fields, shuf=None, cons=None):
+    """fields = [(name, targets, controls, dur_numerator)]; `method`: any constructor argument; `cons`: descriptor list"""
+    line = f"sched {enc_method(method)} perm={1 if perm else 0}{enc_cons(cons)} gates=" + "|".join(enc_ins(*f) for f in fields)
     if shuf:
         line += " shuf=" + ";".join(",".join(map(str, p)) for p in shuf)
     return line        # `Cfg.fx` is `Gen.SchedRule.conflictFix`, regenerated from the tree
@@ -272,14 +343,14 @@ def classify_exc(e):
 # ------------------------------------------------------------------------------------------
 # implementation side
 
-def impl_schedule(obj, method, perm, shuffle_log=None, scheduler=None, **kw):
+def impl_schedule(obj, method, perm, shuffle_log=None, scheduler=None, cons=None, **kw):
     """Scheduler(method, allow_permutation=perm).schedule(obj, **kw) with sorted sets and the given
     shuffle recorder; `scheduler`: an existing Scheduler object to be reused (a history of calls on one
     object) instead of a fresh one.  Returns (status, result)."""
     _, _, Scheduler, _, _ = _mods()
     try:
         with patched(shuffle_log):
-            sch = scheduler if scheduler is not None else Scheduler(method, allow_permutation=perm)
+            sch = scheduler if scheduler is not None else new_scheduler(method, perm, cons)
             r = sch.schedule(obj, **kw)
         return "ok", r
     except Exception as e:      # canonicalised by the caller
@@ -309,19 +380,22 @@ class SchedulerChain:
         self.ids += 1
         return self.ids
 
-    def get(self, method, perm, need=1):
+    @staticmethod
+    def key(method, perm, cons=None):
+        return (repr(method), bool(perm), repr(cons))
+
+    def get(self, method, perm, need=1, cons=None):
         """the Scheduler object to use for the next `need` calls of this setting and the list recording its history"""
-        _, _, Scheduler, _, _ = _mods()
-        key = (method, bool(perm))
+        key = self.key(method, perm, cons)
         if key not in self.obj or len(self.hist[key]) + need > self.maxlen:
-            self.obj[key] = Scheduler(method, allow_permutation=perm)
+            self.obj[key] = new_scheduler(method, perm, cons)
             self.hist[key] = []
             self.store[key] = {}
         return self.obj[key], self.hist[key]
 
-    def objects(self, method, perm):
+    def objects(self, method, perm, cons=None):
         """the persistent circuit / list objects of the current history of this setting"""
-        return self.store[(method, bool(perm))]
+        return self.store[self.key(method, perm, cons)]
 
 
 def apply_edits(L, edits, den=1):
